@@ -247,8 +247,8 @@ def probe_from_df(inp) -> ProbeResult:
 
 
 PARTS = [
-    Part("relabel", inputs(), probe_relabel, quick=1500, thorough=40000),
-    Part("from_df", inputs(with_df=True), probe_from_df, quick=600, thorough=12000),
+    Part("relabel", inputs(), probe_relabel, quick=6000, thorough=60000),
+    Part("from_df", inputs(with_df=True), probe_from_df, quick=1500, thorough=20000),
 ]
 
 
